@@ -1,0 +1,10 @@
+//go:build verif
+
+package health
+
+// Contracts for govc (see /verif/DESIGN.md). Comment-only file: no executable code.
+
+//@ func (p *Prober) Stop
+//@   assigns abool(p.stopped)
+//@ func (p *Prober) Start
+//@   assigns spawned[*]
